@@ -888,9 +888,11 @@ def altConstr (recs : Interner → List Token → TermsRes) (st : Interner) (tok
   | some r =>
     match reqWs r with
     | some (.word tg :: r1) =>
-      match parseDecimal tg with
+      -- `decimal()` takes the digits the word starts with; what is left of the word (scanner-less
+      -- grammar: `(constr 0x)` = `(constr 0 x)`) is the first thing the field loop sees
+      match parseDecimal (tg.takeWhile isDigit) with
       | some tag =>
-        match recs st (skipWs r1) with
+        match recs st (if (tg.dropWhile isDigit).isEmpty then skipWs r1 else .word (tg.dropWhile isDigit) :: r1) with
         | some (fs, st1, .rpar :: r2) => some (.constr tag fs, st1, r2)
         | _ => none
       | none => none
